@@ -6,6 +6,7 @@ COQ_PROP = "Properties/C05.v"; COQ_DIRS = ["Common", "Timer"]
 COQ_MODULE = "Timer.Model"; RUN_FN = "run"
 THEOREMS = ["C05_Inv_wake_preserved", "C05_Inv_wake_every_history", "C05_never_early", "C05_woken_exactly_at_deadline",
             "C05_never_late_never_lost", "C05_complete_run_wakes_at_deadline", "C05_futures_keep_invariant",
+            "C05_composite_event_is_driver_event",
             "C05_due_deadline_completes_immediately",
             "C05_timeout_ok_iff_inner_first", "C05_interval_ticks"]
 QUICK_N = 2500; THOROUGH_N = 150000
